@@ -30,6 +30,9 @@ impl Scope {
     pub fn peek_yields_value(&self) -> (r: &ScopeReturnStatus) ensures *r == self.yields { &self.yields }
     pub fn is_function(&self) -> (r: bool) ensures r == (self.ty is Function) { match self.ty { ScopeType::Function(_) => true, _ => false } }        // obligation C01.scopes_since_loop carries its body
 }
+// the stack itself (Scopes(RefCell<Vec<Scope>>)): outermost first, the LAST element is the scope the statement stands in
+pub struct Scopes { pub v: Vec<Scope> }
+pub fn opt_unwrap_scope(o: Option<Scope>) -> (r: Scope) requires o is Some ensures r == o->Some_0 { match o { Some(s) => s, None => vstd::pervasive::unreached() } }
 // ScopeStack::iter(): innermost scope first -- index 0 is the scope the statement stands in
 pub struct AssocFileData { pub scopes: Vec<Scope> }
 // first scope from the inside that yields a type
@@ -87,6 +90,17 @@ def build(repo):
              lambda bb: ["let mut verif_j : usize = 0 ; while verif_j < self . scopes . len ( )", G(ANYINV), "{", f"let {text(bb['x'])} = & self . scopes [ verif_j ] ; verif_j += 1 ;", *bb["body"], "}"],
              count=1, why="for over ScopeStack::iter() -> indexed while over the scope sequence (the any() chain was put in loop form by the generic normalisation)"),
     ], log, "is_inside_function")
+    # Scope::mark_should_return_as_completed, Scopes::mark_should_return_as_completed
+    fsm = src.fn(SCOPE, "mark_should_return_as_completed", "impl Scope")
+    bsm = translate(fsm["body"], [], log, "Scope::mark_should_return_as_completed")
+    fss = src.fn(SCOPE, "mark_should_return_as_completed", "impl Scopes")
+    bss = translate(fss["body"], [
+        Rule("R10", "let mut x = self . 0 . borrow_mut ( ) ;", "", count=1, why="RefCell borrow of the stack: the stack itself (R10)"),
+        Rule("R13", "x . last_mut ( ) . unwrap ( ) . mark_should_return_as_completed ( )",
+             "{ let mut verif_last = opt_unwrap_scope ( self . v . pop ( ) ) ; let verif_r = verif_last . mark_should_return_as_completed ( ) ; self . v . push ( verif_last ) ; verif_r }",
+             count=1, why="a method through `last_mut().unwrap()`: the last element taken out, the method called on it, put back (R13); unwrap on an empty stack is a panic precondition (R8)"),
+    ], log, "Scopes::mark_should_return_as_completed")
+    check_closed(bsm, "Scope::mark"); check_closed(bss, "Scopes::mark")
     for b, w in ((bg, "get_type"), (bmk, "mark"), (br, "expected_yield"), (bi, "is_inside_function")):
         check_closed(b, w)
     gen = header(log, f"{SCOPE}: ScopeReturnStatus::get_type, mark_should_return_as_completed; {FILE}: AssocFileData::return_statement_expected_yield_type, is_inside_function") + SPEC + f"""
@@ -105,6 +119,31 @@ impl ScopeReturnStatus {{
             (*old(self) is No || *old(self) is Void) ==> *final(self) == *old(self),
     {{
 {render(bmk, 2)}
+    }}
+}}
+impl Scope {{
+    //@ OBL C02.scope.mark-returned.scope
+    pub fn mark_should_return_as_completed(&mut self) -> (r: bool)
+        ensures r, final(self).ty == old(self).ty,
+            (old(self).yields is Should || old(self).yields is ParentShould || old(self).yields is Did) ==> final(self).yields is Did && Some(final(self).yields->Did_0) == yields_type(old(self).yields),
+            (old(self).yields is No || old(self).yields is Void) ==> final(self).yields == old(self).yields,
+    {{
+{render(bsm, 2)}
+    }}
+}}
+impl Scopes {{
+    //@ OBL C02.scope.mark-returned.innermost-only
+    // a `return` marks the scope it stands in -- the innermost one -- and no other: an enclosing function or block is only marked by what ITS statements decide
+    pub fn mark_should_return_as_completed(&mut self) -> (r: bool)
+        requires old(self).v@.len() > 0            // there is always the file scope
+        ensures final(self).v@.len() == old(self).v@.len(),
+            forall|i: int| 0 <= i < old(self).v@.len() - 1 ==> final(self).v@[i] == old(self).v@[i],
+            ({{ let o = old(self).v@.last(); let n = final(self).v@.last();
+               &&& n.ty == o.ty
+               &&& (o.yields is Should || o.yields is ParentShould || o.yields is Did) ==> n.yields is Did && Some(n.yields->Did_0) == yields_type(o.yields)
+               &&& (o.yields is No || o.yields is Void) ==> n.yields == o.yields }}),
+    {{
+{render(bss, 2)}
     }}
 }}
 impl AssocFileData {{
@@ -126,6 +165,8 @@ fn main() {{}}
 """
     return gen, [Obl("C02.scope.get_type", ["C02", "C03"], fn="ScopeReturnStatus::get_type", desc="the type a scope's return status carries: Should / ParentShould / Did their own, Void the void type, otherwise none"),
                  Obl("C02.scope.mark-returned", ["C02", "C03"], fn="ScopeReturnStatus::mark_should_return_as_completed", desc="marking a scope as returned: owed / inherited / already returned T -> returned T; a scope that owes nothing is unchanged"),
+                 Obl("C02.scope.mark-returned.scope", ["C02", "C03"], fn="Scope::mark_should_return_as_completed", desc="Scope::mark_should_return_as_completed: the scope's status is marked, its kind untouched"),
+                 Obl("C02.scope.mark-returned.innermost-only", ["C02", "C03"], fn="Scopes::mark_should_return_as_completed", desc="a `return` marks the innermost scope and no other"),
                  Obl("C02.scope.expected-yield", ["C02", "C03"], fn="AssocFileData::return_statement_expected_yield_type", desc="the type a `return` must yield: that of the innermost scope, walking outwards, whose status carries one"),
                  Obl("C02.scope.inside-function", ["C02", "C11"], fn="AssocFileData::is_inside_function", desc="is_inside_function: some enclosing scope is a function's")], log
 
